@@ -234,12 +234,21 @@ def history_case(ctx, case):
 
     N, bs_bl, bs, shuffle, seed = case["N"], case["bs_bl"], case["bs"], case["shuffle"], case["s"]
     env, O, cfg = policies.env_for(case["env"], 6)
-    pol = policies.make("am", env, seed=seed % 5)
+    # the policy's own validation / test decoding may be stochastic: the baseline is a GREEDY rollout whatever they say
+    pkw = dict(val_decode_type="sampling", test_decode_type="sampling") if case.get("val_sampling") else {}
+    pol = policies.make("am", env, seed=seed % 5, **pkw)
     torch.manual_seed(seed)
     bl = RolloutBaseline()
     bl.setup(pol, env, batch_size=bs_bl, device="cpu", dataset_size=max(4, N // 2))
     ref_pol = copy.deepcopy(pol)
     wrapper = bl
+
+    def train_mode():
+        # a hand-written loop calling module.train() recursively also reaches the baseline's policy (a submodule of the
+        # lightning module): wrapping must not depend on the mode it was left in
+        if case.get("train_flip", True) and isinstance(getattr(bl, "policy", None), torch.nn.Module):
+            bl.policy.train()
+            ctx.count("c17_train_mode_flips")
     if case.get("warmup"):
         wrapper = WarmupBaseline(bl, n_epochs=1)
         wrapper.alpha = 1.0
@@ -250,6 +259,7 @@ def history_case(ctx, case):
     else:
         ds = env.dataset([N])
     sig = dict(q0="baseline_history", env=case["env"], dscls=case.get("dscls", "default"))
+    train_mode()
     wrapped = wrapper.wrap_dataset(ds, env, batch_size=bs_bl, device="cpu")
     ctx.count("c17_wrap_calls")
     if not _check_batches(ctx, sig, env, wrapped, bs, shuffle, seed, ref_pol, bl, "after_wrap", limit=max(bs, N // 2)):
@@ -270,6 +280,7 @@ def history_case(ctx, case):
     # training set is wrapped again
     bl._update_policy(pol, env, batch_size=bs_bl, device="cpu", dataset_size=max(4, N // 2))
     ref_pol = copy.deepcopy(pol)
+    train_mode()
     wrapped2 = wrapper.wrap_dataset(ds, env, batch_size=bs_bl, device="cpu")
     ctx.count("c17_wrap_calls")
     ctx.count("c17_rewraps")
